@@ -792,7 +792,7 @@ example :
   `Arena.Abs a g w rs f`: the state `f` of the forest model (`Model/Forest.lean`: `HTree`s with
   creation-order handles) is the arena read through `g`, the handle numbering and values `w`
   (injective on live slots, below `f.next`) and the parentless live slots `rs` in the forest's root
-  order.  Not covered by these theorems: the `traverse` / `descendants` iterators.
+  order.  (`traverse` / `descendants`: `Props/C07`; not covered anywhere: `reverse_traverse`.)
   ===================================================================================== -/
 
 /-- Every arena reached from the empty one by such calls satisfies the pointer invariant. -/
